@@ -1,6 +1,6 @@
 """Rule kinds shared by the per-property modules (see DESIGN.md §3)."""
 from .engine import AnchorLost, Undecidable
-from .mir import (Origins, NotLoopFree, name_matches, op_place, path_words, place_local, place_proj,
+from .mir import (Origins, SubstOrigins, NotLoopFree, name_matches, op_place, path_words, place_local, place_proj,
                   rvalue_operands, show, strip_generics, strip_identity, switch_info, term_calls,
                   term_has_call, walk)
 
@@ -178,13 +178,21 @@ def fmt_word(w):
     return " ".join(s if isinstance(s, str) else ":".join(str(x) for x in s) for s in w)
 
 
-def words_of(body, call_sym, edge_sym=None, stmt_sym=None, start=0, stops=(), keep_end=True, succ=None, drop_suspend=True):
+def words_of(body, call_sym, edge_sym=None, stmt_sym=None, start=0, stops=(), keep_end=True, succ=None, drop_suspend=True,
+             inline=None, _origins=None, _depth=0):
     """Projected word set of `body`.
     call_sym(call, origins) -> symbol | None        for call terminators
     edge_sym(bb, succ, subject_term, labels, origins) -> symbol | None    for switch edges
     stmt_sym(bb, stmt, origins) -> symbol | None    for assign statements
-    """
-    o = Origins(body)
+
+    inline = {"prog": Program, "edge_for": body -> edge_sym}: calls that call_sym does not recognise and that resolve to
+    a crate-local, synchronous, loop-free helper returning `bool` (every path a constant) or `()` are replaced by the
+    helper's own projected words, with its parameters bound to the caller's argument terms (same callbacks); the
+    helper's boolean result is correlated with the caller's later test of it. A helper whose words contain no symbol
+    and that is not a two-valued predicate is skipped (as before). Any problem while inlining falls back to the
+    non-inlined projection (which fails closed through `?cond(..)` / missing events).
+    With _depth > 0 (internal) returns a list of (symbols, return_value) instead of a set of words."""
+    o = _origins or Origins(body)
     cache_b = {}
     cache_e = {}
     # boolean flag temporaries (e.g. `matches!`, `a && b`): locals whose every definition assigns a bool constant.
@@ -196,6 +204,53 @@ def words_of(body, call_sym, edge_sym=None, stmt_sym=None, start=0, stops=(), ke
         if all(d_[0] == "assign" and d_[3]["k"] == "use" and d_[3]["op"].get("k") == "const" and "int" in d_[3]["op"] for d_ in ds_):
             flags.add(l_)
 
+    inl = {}            # bb of an inlined call -> alternatives (list of symbol lists)
+    if inline is not None and _depth < 2:
+        prog_ = inline["prog"]
+        for i_, bl_ in enumerate(body.blocks):
+            if bl_.get("cleanup") or bl_["t"]["k"] != "call":
+                continue
+            c_ = body.call_at(i_)
+            if c_ is None:
+                continue
+            F = None
+            for n_ in (c_.res, c_.fn):
+                if n_ and n_ in prog_.bodies:
+                    F = prog_.bodies[n_]
+                    break
+            if F is None or F.coroutine or F.kind == "Closure" or F.path == body.path or F.crate != body.crate:
+                continue
+            rt = F.local_ty(0)
+            if rt not in ("bool", "()") or not isinstance(c_.dest, int):
+                continue
+            try:
+                if call_sym(c_, o) is not None:
+                    continue            # the rule knows this call as an event of its own
+                mapping = {k_ + 1: o.of_operand(a_) for k_, a_ in enumerate(c_.args)}
+                so = SubstOrigins(F, mapping)
+                sub = words_of(F, call_sym, inline["edge_for"](F), stmt_sym, keep_end=False, succ=succ, drop_suspend=False,
+                               inline=inline, _origins=so, _depth=_depth + 1)
+            except Exception:
+                continue
+            if not sub:
+                continue
+            rvs = {rv_ for _, rv_ in sub}
+            if rt == "bool" and (None in rvs):
+                continue                # not a constant-valued predicate: keep the opaque `?cond(call)`
+            interesting = any(len(sy_) > 0 for sy_, _ in sub) or (rt == "bool" and len(rvs) == 2)
+            if not interesting:
+                continue
+            alts = []
+            for sy_, rv_ in sub:
+                a_ = list(sy_)
+                if rt == "bool":
+                    a_.append(("\x00set", c_.dest, rv_))
+                if a_ not in alts:
+                    alts.append(a_)
+            inl[i_] = alts
+            if rt == "bool":
+                flags.add(c_.dest)
+
     def sym_block(bb):
         if bb in cache_b:
             return cache_b[bb]
@@ -204,17 +259,30 @@ def words_of(body, call_sym, edge_sym=None, stmt_sym=None, start=0, stops=(), ke
         for s in bl["s"]:
             if s["k"] == "assign" and isinstance(s["lhs"], int) and s["lhs"] in flags:
                 out.append(("\x00set", s["lhs"], bool(s["rv"]["op"]["int"])))
+            elif _depth > 0 and s["k"] == "assign" and s["lhs"] == 0 and body.local_ty(0) == "bool":
+                rv = s["rv"]
+                if rv["k"] == "use" and rv["op"].get("k") == "const" and "int" in rv["op"]:
+                    out.append(("\x00ret", bool(rv["op"]["int"])))
+                elif rv["k"] == "use" and isinstance(op_place(rv["op"]), int) and op_place(rv["op"]) in flags:
+                    out.append(("\x00retflag", op_place(rv["op"])))
+                else:
+                    out.append(("\x00ret", None))
         if stmt_sym:
             for s in bl["s"]:
-                if s["k"] == "assign":
+                if s["k"] == "assign" and not (_depth > 0 and s["lhs"] == 0):      # a helper's return slot is not the rule's
                     x = stmt_sym(bb, s, o)
                     if x is not None:
                         out.append(x)
         c = body.call_at(bb)
         if c is not None:
-            x = call_sym(c, o)
-            if x is not None:
-                out.append(x)
+            if bb in inl:
+                out.append(("\x00alt", tuple(tuple(a_) for a_ in inl[bb])))
+            else:
+                x = call_sym(c, o)
+                if x is not None:
+                    out.append(x)
+                elif _depth > 0 and c.dest == 0 and body.local_ty(0) == "bool":
+                    out.append(("\x00ret", None))
         cache_b[bb] = out
         return out
 
@@ -246,12 +314,22 @@ def words_of(body, call_sym, edge_sym=None, stmt_sym=None, start=0, stops=(), ke
                 # `otherwise` edge of a match that already names every variant: infeasible
                 cache_e[(a, b)] = None
                 return None
+            vis = []
             if edge_sym is not None:
                 x = edge_sym(a, b, subj, labs, o)
                 if isinstance(x, list):
-                    out.extend(x)
+                    vis.extend(x)
                 elif x is not None:
-                    out.append(x)
+                    vis.append(x)
+            if inline is not None and subj[0] == "discr" and labs:
+                key = strip_identity(subj[1])
+                if not any(y[0] in ("phi", "unknown", "cycle", "undef", "partial") for y in walk(key)):
+                    # remember which variants this edge admits for this subject: tests of the same subject in an inlined
+                    # helper and in its caller are correlated (contradictions dropped, implied re-tests made silent)
+                    out.append(("\x00dtest", key, frozenset(labs), _depth, tuple(vis)))
+                    cache_e[(a, b)] = out
+                    return out
+            out.extend(vis)
         cache_e[(a, b)] = out
         return out
 
@@ -259,33 +337,80 @@ def words_of(body, call_sym, edge_sym=None, stmt_sym=None, start=0, stops=(), ke
         ws = path_words(body, start, sym_block, sym_edge, stops=stops, succ=succ)
     except NotLoopFree as e:
         raise Undecidable(str(e))
+
+    def expand(core):
+        """expand \x00alt symbols (inlined helper alternatives) into separate words"""
+        outs = [[]]
+        for s_ in core:
+            if isinstance(s_, tuple) and len(s_) == 2 and s_[0] == "\x00alt":
+                outs = [p_ + list(a_) for p_ in outs for a_ in s_[1]]
+                if len(outs) > 4096:
+                    raise Undecidable("too many inlined alternatives")
+            else:
+                for p_ in outs:
+                    p_.append(s_)
+        return outs
+
     res = set()
+    res_l = []
     for w in ws:
         end = w[-1]
-        core = w[:-1]
         if drop_suspend and end[1] == "suspend":
             continue        # prefix of a path: the future is suspended (or dropped) at an await
-        # feasibility of flag temporaries
-        st_ = {}
-        feasible = True
-        clean = []
-        for s_ in core:
-            if isinstance(s_, tuple) and len(s_) == 3 and s_[0] == "\x00set":
-                st_[s_[1]] = s_[2]
-            elif isinstance(s_, tuple) and len(s_) == 3 and s_[0] == "\x00test":
-                if s_[1] in st_ and st_[s_[1]] != s_[2]:
-                    feasible = False
-                    break
+        if _depth > 0 and end[1] != "return":
+            if end[1] in ("unreachable",):
+                continue
+            raise Undecidable("inlined helper does not simply return")
+        for core in expand(w[:-1]):
+            # feasibility of flag temporaries
+            st_ = {}
+            feasible = True
+            clean = []
+            ret = None
+            known = {}          # discr subject -> (admitted variants so far, depths that tested it)
+            for s_ in core:
+                if isinstance(s_, tuple) and len(s_) == 5 and s_[0] == "\x00dtest":
+                    _, key_, labs_, dep_, vis_ = s_
+                    if _depth > 0:
+                        clean.append(s_)            # resolved by the outermost caller, which sees both sides
+                        continue
+                    if key_ in known:
+                        cur_, deps_ = known[key_]
+                        cross = any(d_ != dep_ for d_ in deps_)
+                        if cross and not (cur_ & labs_):
+                            feasible = False
+                            break
+                        if cross and cur_ <= labs_:
+                            known[key_] = (cur_, deps_ | {dep_})
+                            continue                # implied by what the other body already established: silent
+                        known[key_] = ((cur_ & labs_) if cross else labs_, deps_ | {dep_})
+                    else:
+                        known[key_] = (labs_, {dep_})
+                    clean.extend(vis_)
+                    continue
+                if isinstance(s_, tuple) and len(s_) == 3 and s_[0] == "\x00set":
+                    st_[s_[1]] = s_[2]
+                elif isinstance(s_, tuple) and len(s_) == 3 and s_[0] == "\x00test":
+                    if s_[1] in st_ and st_[s_[1]] != s_[2]:
+                        feasible = False
+                        break
+                elif isinstance(s_, tuple) and len(s_) == 2 and s_[0] == "\x00ret":
+                    ret = s_[1]
+                elif isinstance(s_, tuple) and len(s_) == 2 and s_[0] == "\x00retflag":
+                    ret = st_.get(s_[1])
+                else:
+                    clean.append(s_)
+            if not feasible:
+                continue
+            core_t = tuple(clean)
+            if _depth > 0:
+                if (core_t, ret) not in res_l:
+                    res_l.append((core_t, ret))
+            elif keep_end:
+                res.add(core_t + (f"<{end[1]}>",))
             else:
-                clean.append(s_)
-        if not feasible:
-            continue
-        core = tuple(clean)
-        if keep_end:
-            res.add(core + (f"<{end[1]}>",))
-        else:
-            res.add(core)
-    return res
+                res.add(core_t)
+    return res_l if _depth > 0 else res
 
 
 def check_words(ob, body, got, allowed, key):
@@ -491,8 +616,9 @@ def std_edge(body, extra=None, strict=True):
     return edge_sym
 
 
-def seq_words(body, call_sym, stmt_sym=None, extra_edge=None, strict=True, **kw):
-    return words_of(body, call_sym, std_edge(body, extra_edge, strict), stmt_sym, **kw)
+def seq_words(body, call_sym, stmt_sym=None, extra_edge=None, strict=True, inline_prog=None, **kw):
+    inline = {"prog": inline_prog, "edge_for": lambda b_: std_edge(b_, extra_edge, strict)} if inline_prog is not None else None
+    return words_of(body, call_sym, std_edge(body, extra_edge, strict), stmt_sym, inline=inline, **kw)
 
 
 def ok_words(ws):
